@@ -1511,17 +1511,21 @@ def _canon_events(events):
 
 
 def _visible(objects_dir: str):
-    """what a fresh process sees: ids + inconsistencies"""
+    """what a fresh process sees: ids + inconsistencies (a reader that raises is an inconsistency, not a harness crash)"""
     import warnings
     warnings.simplefilter("ignore")
     from dulwich.object_store import DiskObjectStore
-    st = DiskObjectStore(objects_dir)
     bad: list[str] = []
+    ids: list = []
     try:
-        ids = sorted(set(st))
-        _check_objects(st, ids, bad)
-    finally:
-        st.close()
+        st = DiskObjectStore(objects_dir)
+        try:
+            ids = sorted(set(st))
+            _check_objects(st, ids, bad)
+        finally:
+            st.close()
+    except Exception as e:      # noqa: BLE001
+        bad.append(f"unreadable-store: a fresh DiskObjectStore over the directory raises {type(e).__name__}: {str(e)[:120]}")
     return ids, bad
 
 
@@ -1619,11 +1623,19 @@ def _stream_fs(ctx):
         root2 = os.path.join(str(ctx.scratch), f"fsf-{path}-clean")
         os.makedirs(root2)
         st2 = DiskObjectStore.init(os.path.join(root2, "objects"))
+        clean_err = None
         with sched.Recorder(root2, None) as rec2:
-            _do_ingest(st2, path, data)
+            try:
+                _do_ingest(st2, path, data)
+            except Exception as e:       # noqa: BLE001
+                clean_err = e
         st2.close()
         n_calls = len(rec2.events)
         shutil.rmtree(root2, ignore_errors=True)
+        if clean_err is not None:
+            ctx.disagree(stream, {"scenario": f"{path}/clean", "input": hx(data)}, "ok",
+                         f"a valid pack is not ingested: {type(clean_err).__name__}: {str(clean_err)[:200]}", "scenario outcome")
+            continue
         for k in range(n_calls):
             root = os.path.join(str(ctx.scratch), f"fsf-{path}-{k}")
             os.makedirs(root)
@@ -1810,6 +1822,17 @@ def _refname_plausible(n: bytes) -> bool:
     return all(part and not part.startswith(b".") and not part.endswith(b".lock") for part in n.split(b"/"))
 
 
+def _index_accept_class(m: bytes, left):
+    """why Index.read let a file through whose checksum does not verify — the failing-input class"""
+    if left is not None and left < 20:
+        return "index-short-trailer-accepted-unverified", (f" (only {left} bytes were left for the 20-byte trailer: "
+                                                           "check_sha(allow_empty=True) does not raise on a short trailer)")
+    if left is not None and left > 20 and m[len(m) - left: len(m) - left + 20] == b"\0" * 20:
+        return "index-zero-run-taken-for-skiphash-trailer", (f" ({left} bytes were left when the trailer was read and the next 20 of them are "
+                                                             "zero: taken for the all-zero index.skipHash trailer, the rest of the file ignored)")
+    return "index-damaged-accepted", ""
+
+
 def _git_index_files(ctx):
     """index files written by C git (independent of dulwich): v2, v2 with TREE extension, v4, and one conflicted"""
     import subprocess
@@ -1919,12 +1942,10 @@ def _stream_files(ctx, w, packs):
                 same = rep["entries"] == orig["entries"]
                 if not checksum_ok and not same:
                     left = rep.get("left_at_check")
-                    short = left is not None and left < 20
+                    cls, why = _index_accept_class(m, left)
                     ctx.oracle_fail(stream, dict(case, entries=rep["entries"][-1:], left_at_check=left),
                                     "a damaged index file whose checksum does not verify was accepted and yields entries that differ from "
-                                    "the ones written" + (f" (only {left} bytes were left for the 20-byte trailer: check_sha(allow_empty=True) "
-                                                          "does not raise on a short trailer)" if short else ""),
-                                    "index-short-trailer-accepted-unverified" if short else "index-damaged-accepted")
+                                    "the ones written" + why, cls)
                 verdict = "ok-verified" if checksum_ok else ("ok-same-entries" if same else "ok-ALTERED")
             ctx.count(stream, (name, m), True, f"{name}:{tag}:{verdict}")
     # ---- packed-refs
@@ -2016,8 +2037,8 @@ def _eval_case(ctx, w, c: dict, stream: str):
         m = unhx(c["content"])
         if r["res"] == "ok" and not (len(m) >= 20 and (sha1(m[:-20]) == m[-20:] or m[-20:] == b"\0" * 20)) and r["entries"] != o.get("entries"):
             left = r.get("left_at_check")
-            ctx.oracle_fail(stream, dict(c, left_at_check=left), "a damaged index file whose checksum does not verify was accepted with altered entries",
-                            "index-short-trailer-accepted-unverified" if left is not None and left < 20 else "index-damaged-accepted")
+            cls, why = _index_accept_class(m, left)
+            ctx.oracle_fail(stream, dict(c, left_at_check=left), "a damaged index file whose checksum does not verify was accepted with altered entries" + why, cls)
 
 
 def _run_corpus(ctx, w):
